@@ -163,13 +163,41 @@ def check(report, tier, seed):
                 report.violation("cli-silent-failure", "exit status 1 without an 'error:' diagnostic", {"text": str(t)[:500]})
             elif r.returncode == 0 and b"syntax OK" not in r.stdout:
                 report.violation("cli-silent-success", "exit status 0 without 'syntax OK'", {"text": str(t)[:500]})
+        # deeply nested but VALID texts through the real binary (the in-process harness has its own, small stack):
+        # sums, mux nests, parentheses, slices, concatenations a few thousand levels deep must simply be accepted
+        deep = []
+        for n_ in ([1500, 6000] if tier == "quick" else [1500, 6000, 20000, 60000]):
+            deep += [("sum%d" % n_, "wire w : 64; w = " + "pc + " * n_ + "1;\npc = 0; Stat = STAT_AOK;\n"),
+                     ("constsum%d" % n_, "const K = " + "1 + " * n_ + "1;\npc = 0; Stat = STAT_AOK;\n"),
+                     ("paren%d" % n_, "const K = " + "(" * n_ + "1" + ")" * n_ + ";\npc = 0; Stat = STAT_AOK;\n"),
+                     ("slice%d" % n_, "wire w : 1; w = (pc" + "[0..64]" * n_ + " == 0);\npc = 0; Stat = STAT_AOK;\n"),
+                     ("andor%d" % n_, "wire w : 1; w = " + "(pc == 0) && " * n_ + "1;\npc = 0; Stat = STAT_AOK;\n")]
+        for n_ in ([1500] if tier == "quick" else [1500, 6000]):
+            deep += [("mux%d" % n_, "const K = " + "[ 1 : " * n_ + "1" + "; ]" * n_ + ";\npc = 0; Stat = STAT_AOK;\n"),
+                     ("cat%d" % n_, "wire w : 1; w = (" + "(" * min(n_, 100) + "0b1" + " .. 0b1)" * min(n_, 100) + ")[0..1];\npc = 0; Stat = STAT_AOK;\n")]
+        # beyond every stack: recorded finding (known_findings.txt), reported as such and not as a new violation
+        deep += [("sum250000", "wire w : 64; w = " + "pc + " * 250000 + "1;\npc = 0; Stat = STAT_AOK;\n")]
+        for name, t in deep:
+            p = os.path.join(d, name + ".hcl")
+            with open(p, "w") as f:
+                f.write(t)
+            try:
+                r = subprocess.run([cli, "--check", p], capture_output=True, timeout=120)
+            except subprocess.TimeoutExpired:
+                report.violation("cli-hang-deep", "hclrs --check did not terminate within 120 s on a valid text nested %s levels deep" % name, {"shape": name, "text_head": t[:120]})
+                continue
+            res["deep.exit%d" % r.returncode] += 1
+            if not (r.returncode == 0 and b"syntax OK" in r.stdout) and not (r.returncode == 1 and b"error:" in r.stderr):
+                key = "cli-abort-nesting-beyond-250000" if name == "sum250000" and r.returncode < 0 or r.returncode == 134 and name == "sum250000" else "cli-crash-deep"
+                report.violation(key, "hclrs --check on a deeply nested text (%s) exited with status %d: %s" % (name, r.returncode, r.stderr.decode("utf-8", "replace")[-160:]),
+                                 {"shape": name, "bytes": len(t), "text_head": t[:120], "text_tail": t[-80:]})
     report.coverage["evaluations"] = 2 * len(texts) + len(sample)
     report.coverage["distinct_nontrivial"] = len(texts)
     report.coverage["rule"] = ("truncation of %d valid programs at every byte (lossy-decoded when inside a character); single token insert / replace / delete "
                                "over a %d-token vocabulary (keywords, literals incl. out-of-range and over-long ones, every operator, brackets, three comment "
                                "forms, CR/LF/CRLF, non-ASCII letters, no-break and ideographic space, stray characters); token soups; texts ending in the middle of "
                                "a literal, comment, declaration or multi-byte character; constant / default / enable expressions that overflow or divide by "
-                               "zero; in-process under catch_unwind in the overflow-checking and the wrapping build with diagnostics rendered, plus a sample and "
+                               "zero; valid texts nested 1500-6000 (thorough 60000) levels deep through the real binary; in-process under catch_unwind in the overflow-checking and the wrapping build with diagnostics rendered, plus a sample and "
                                "invalid UTF-8 through the real binary" % (len(BASE_PROGRAMS) + 3, len(VOCAB)))
     report.coverage["distribution"] = dict(res)
     report.coverage["samples"] = [texts[5], texts[-1]]
